@@ -50,7 +50,7 @@ PART_NAMES_B = ["family", "tag", "extra_b1"]
 
 
 @st.composite
-def part_descs(draw, ndim):
+def part_descs(draw, ndim, min_entries=2):
     names = [f"position_{c}" for c in "xyz"[:ndim]] if draw(st.integers(0, 4)) else []
     if draw(st.booleans()):
         names += [f"velocity_{c}" for c in "xyz"[:ndim]]
@@ -61,7 +61,7 @@ def part_descs(draw, ndim):
     if draw(st.booleans()):
         desc = list(draw(st.permutations(desc)))
     for cand in [("mass", "d"), ("identity", "i"), ("family", "b")]:
-        if len(desc) >= 2:
+        if len(desc) >= min_entries:
             break
         if cand not in desc:
             desc.append(cand)
@@ -75,7 +75,7 @@ LEGACY_MODEL = {"[1]": "dimensionless", "[g]": "g", "[cm]": "cm", "[km/s]": "km/
 
 
 @st.composite
-def sink_specs(draw, ndim):
+def sink_specs(draw, ndim, one_column_ok=False):
     mode = draw(st.sampled_from(["file", "file", "file", "empty", "missing"]))
     if mode != "file":
         return {"mode": mode}
@@ -95,7 +95,7 @@ def sink_specs(draw, ndim):
     for i in range(nextra):
         cols.append(draw(st.sampled_from(["msink", "dmf", "rho", "tform", "acc", "lum", "age", "q"])) + str(i))
         units.append(draw(st.sampled_from(pool)))
-    if len(cols) < 2:
+    if len(cols) < 2 and not one_column_ok:
         cols.append("msink")
         units.append("m" if dialect == "code" else "[g]")
     return {"mode": "file", "dialect": dialect, "cols": cols, "units": units, "n": draw(st.sampled_from([1, 1, 2, 3, 6]))}
@@ -142,7 +142,7 @@ def output_cases(draw, ndims=(1, 2, 3), hilbert=None, with_part=None, with_sink=
     if wp:
         case["part_desc"] = draw(part_descs(ndim))
         case["part_counts"] = draw(st.lists(st.sampled_from([0, 0, 1, 2, 5, 17]), min_size=1, max_size=4))
-        case["part_header_lens"] = draw(st.lists(st.sampled_from([0, 4, 8, 12, 16, 40]), min_size=5, max_size=5))
+        case["part_header_lens"] = draw(st.lists(st.sampled_from([0, 4, 8, 12, 16, 40, 1, 3, 7, 13, 1000]), min_size=5, max_size=5))
     ws = draw(st.booleans()) if with_sink is None else with_sink
     if ws:
         case["sink"] = draw(sink_specs(ndim))
